@@ -28,6 +28,7 @@ func init() {
 			"Round 7: R11 extracted metadata files are renamed into place when complete; R3c (= J8) the uniquifier generator orders attempts. " +
 			"R12 in RemoteJobManager.sendJob the queue sentinel is removed only after the submit command has run (must-pass-through). " +
 			"R6 (round 9) also covers returns of a helper's verdict that can be nil. " +
+			"R13 Fork.mkdirs calls Chunk.mkdirs in a loop over the chunks; R14 InvokePipeline calls instantiatePipeline after EnterCriticalSection. " +
 			"NOT decided: equality of final outputs with an uninterrupted run, behaviour at each individual crash prefix, PID reuse.",
 		Assumptions: commonAssumptions,
 	}
@@ -47,6 +48,8 @@ func runC05(c *an.Ctx) {
 	ruleOrphanReset(c, "R7b")
 	ruleUniqOrder(c, "R3c")
 	ruleR12(c)
+	ruleR13(c)
+	ruleR14(c)
 	ruleR7(c)
 	ruleR7Assume(c)
 }
